@@ -665,6 +665,15 @@ fn main() {
                 None => e_out.push_str(&format!(" ? {}", warned as u8)),
             }
         }
+        // the DOCUMENTED value of an entry: on a `>> key: value` line it is the text as written (old-style
+        // metadata has no types), whatever the implementation chose to store; in front matter it is the YAML value
+        // (values holding comment openers or escapes are spelled differently from what they denote: not overridden)
+        let plain = !(entries[0].1.contains("--") || entries[0].1.contains("[-") || entries[0].1.contains('\\'));
+        let docv: Option<Value> = if carrier == "o" && plain {
+            Some(Value::String(entries[0].1.trim().to_string()))
+        } else {
+            None
+        };
         let skip = "~".to_string();
         let mut o: Vec<(&str, String)> = Vec::new();
         let (mut fcls, mut fexact) = ("~".to_string(), "-".to_string());
@@ -672,6 +681,7 @@ fn main() {
         // ---- time
         if focus.contains('t') {
             if let Some(v) = first {
+                let dv: &Value = docv.as_ref().unwrap_or(v);
                 let (m, ms) = g(|| v.as_minutes(conv), |x| on(*x), &mut panicked);
                 let (t, ts) = g(|| v.as_time(conv), ort, &mut panicked);
                 let tot = match &t {
@@ -693,14 +703,14 @@ fn main() {
                 o.push(("T", ts));
                 o.push(("O", tot));
                 if let Some(m) = m {
-                    match doc::minutes_ok(conv, v, m) {
+                    match doc::minutes_ok(conv, dv, m) {
                         Some(false) => viol.push("minutes"),
                         _ => {}
                     }
                 }
                 if let Some(t) = t {
                     // as_time: the minutes if there are any, else a mapping of prep/cook
-                    let want: doc::D<Option<RecipeTime>> = match doc::untag(v) {
+                    let want: doc::D<Option<RecipeTime>> = match doc::untag(dv) {
                         Value::Mapping(mm) => {
                             let part = |k: &str| match mm.get(k) {
                                 None => doc::D::Is(None),
@@ -723,7 +733,7 @@ fn main() {
                             viol.push("time");
                         }
                     }
-                    if !matches!(doc::untag(v), Value::Mapping(_)) {
+                    if !matches!(doc::untag(dv), Value::Mapping(_)) {
                         let as_total = t.and_then(|t| match t { RecipeTime::Total(n) => Some(n), _ => None });
                         if let Some(m) = m {
                             if as_total != m || (t.is_some() && as_total.is_none()) {
@@ -732,7 +742,7 @@ fn main() {
                         }
                     }
                 }
-                if let Some(s) = doc::untag(v).as_str() {
+                if let Some(s) = doc::untag(dv).as_str() {
                     let (c, e) = f64_class(s);
                     fcls = c;
                     fexact = e;
@@ -770,7 +780,8 @@ fn main() {
             let s = first.map(|v| v.as_servings());
             o.push(("S", s.as_ref().map(olist).unwrap_or(skip.clone())));
             if let (Some(v), Some(s)) = (first, &s) {
-                if doc::servings(v) != *s {
+                let dv: &Value = docv.as_ref().unwrap_or(v);
+                if doc::servings(dv) != *s {
                     viol.push("servings");
                 }
             }
@@ -802,7 +813,8 @@ fn main() {
             let t = first.map(conv_tags);
             o.push(("G", t.as_ref().map(otags).unwrap_or(skip.clone())));
             if let (Some(v), Some(t)) = (first, &t) {
-                if doc::tags(v) != *t {
+                let dv: &Value = docv.as_ref().unwrap_or(v);
+                if doc::tags(dv) != *t {
                     viol.push("tags");
                 }
             }
@@ -818,7 +830,8 @@ fn main() {
             let n = first.map(|v| v.as_name_and_url().map(nu_pair));
             o.push(("N", n.as_ref().map(onu).unwrap_or(skip.clone())));
             if let (Some(v), Some(n)) = (first, &n) {
-                if doc::name_url_val(v) != *n {
+                let dv: &Value = docv.as_ref().unwrap_or(v);
+                if doc::name_url_val(dv) != *n {
                     viol.push("name_url");
                 }
             }
@@ -836,7 +849,8 @@ fn main() {
             let l = first.map(|v| own(v.as_locale()));
             o.push(("L", l.as_ref().map(oloc).unwrap_or(skip.clone())));
             if let (Some(v), Some(l)) = (first, &l) {
-                if doc::locale(v) != *l {
+                let dv: &Value = docv.as_ref().unwrap_or(v);
+                if doc::locale(dv) != *l {
                     viol.push("locale");
                 }
             }
